@@ -188,6 +188,18 @@ func ClockSparse(init uint64) *Prog {
 	)
 }
 
+// NoInput: the output map's only input is a mapper that is skipped (skip_empty_output) on three blocks out of four: on
+// those blocks the output module is not executed at all (no input), which is not the same path as "executed and empty".
+func NoInput(init uint64) *Prog {
+	return mk(fmt.Sprintf("noinput-%d", init), map[string]*Body{
+		"sp": {SkipEmpty: true, Emit: Expr{"when", []any(Every(4, 1)), []any(Cat(Lit("sp@"), Num()))}},
+		"c":  {Emit: Cat(Lit("c@"), Num(), Lit("="), In("sp"))},
+	}, "c",
+		modgen.Map("sp", init, modgen.Src()),
+		modgen.Map("c", init, modgen.MapIn("sp")),
+	)
+}
+
 // MapOnly: no store at all.
 func MapOnly(init uint64) *Prog {
 	return mk(fmt.Sprintf("maponly-%d", init), map[string]*Body{
